@@ -59,6 +59,7 @@ HashKey(rk) == M!HashKey(rk)
 J0(H, iv) == M!J0(H, iv)
 Seal(rk, iv, aad, p, t) == M!Seal(rk, iv, aad, p, t)
 Open(rk, iv, aad, ct, t) == M!Open(rk, iv, aad, ct, t)
+Decrypted(rk, iv, ct, t) == M!Decrypted(rk, iv, ct, t)
 
 \* ---- published vectors
 \* GCM specification (McGrew, Viega) test case 2: X1 = C * H
